@@ -156,6 +156,21 @@ func TestC01(t *testing.T) {
 				paths[0].Put(context.Background(), "c01", fmt.Sprintf("fill-%d", rng.Intn(80)), fmt.Sprintf("%070d", j), PutOpts{})
 			}
 		}
+		// keys written once, before anything else, and then left alone: they stay in the oldest storage tables of their
+		// fragments.  At every quiet point one of them is asked for with NX and XX.
+		oldrec := NewRecorder()
+		nold := 3 * rounds
+		if cfg.TableSize == 0 {
+			nold = 0
+		}
+		var oldSetup []Step
+		for j := 0; j < nold; j++ {
+			oldSetup = append(oldSetup, Step{Op: "put", Key: fmt.Sprintf("old%d-%d", ci, j), Val: fmt.Sprintf("o%d.%060d", j, 0)})
+		}
+		if nold > 0 {
+			oldrec.Run("c01", []Script{{Client: "setup", Path: paths[rng.Intn(len(paths))], Steps: oldSetup}}, nil)
+			sum.Evaluations += nold
+		}
 		filler(160)
 		for round := 0; round < rounds; round++ {
 			filler(20)
@@ -215,6 +230,14 @@ func TestC01(t *testing.T) {
 					fin.Steps = append(fin.Steps, Step{Op: "get", Key: fmt.Sprintf("k%d-%d-%d", ci, round, kk)})
 				}
 				rec.Run("c01", []Script{fin}, nil)
+				var oldSteps []Step
+				for j := 3 * round; j < 3*round+3 && j < nold; j++ {
+					k := fmt.Sprintf("old%d-%d", ci, j)
+					oldSteps = append(oldSteps, Step{Op: "put", Key: k, Val: "nx." + k, Opts: PutOpts{NX: true}}, Step{Op: "get", Key: k},
+						Step{Op: "put", Key: k, Val: "xx." + k, Opts: PutOpts{XX: true}}, Step{Op: "get", Key: k})
+				}
+				oldrec.Run("c01", []Script{{Client: "old", Path: paths[rng.Intn(len(paths))], Steps: oldSteps}}, nil)
+				sum.Evaluations += len(oldSteps)
 			}
 			hs := rec.Split()
 			Emit(w, hs, &seq, trace.Ev{"cfg": cfg.String()})
@@ -231,6 +254,11 @@ func TestC01(t *testing.T) {
 					}
 				}
 			}
+		}
+		if nold > 0 {
+			hs := oldrec.Split()
+			Emit(w, hs, &seq, trace.Ev{"cfg": cfg.String(), "old_keys": true})
+			sum.Histories += len(hs)
 		}
 		// contention rounds: a handful of operations on one fresh key released at the same instant
 		for round := 0; round < envInt("VERIF_CONTENTION", 60); round++ {
@@ -597,6 +625,37 @@ func TestC09(t *testing.T) {
 			ctl.Delays()
 			record(w, rec, &seq, sum, seen, trace.Ev{"cfg": cfg, "dmap": "c09", "mass_expiry": true}, func(h *History) bool { return true })
 		}
+		// An Incr / Decr that straddles the deadline: it has read the counter before the deadline and writes the new value
+		// after it (the goroutine is held at the point between its read and its write).  The key keeps its expiry, so
+		// nobody sees it afterwards and the next Incr starts a new counter.
+		for b := 0; b < envInt("VERIF_STRADDLE", 3); b++ {
+			rec := NewRecorder()
+			key := fmt.Sprintf("strad%d-%d", R, b)
+			pa, pb := paths[rng.Intn(len(paths))], paths[rng.Intn(len(paths))]
+			op := []string{"incr", "decr"}[b%2]
+			// the creating Incr passes the point first; the second arrival for this key is the one to hold
+			g := ctl.Hold("atomic.read", 1, sched.KeyIs("c09", key))
+			go func() {
+				if _, ok := g.WaitArrived(3 * time.Second); ok {
+					time.Sleep(120 * time.Millisecond)
+				}
+				g.Release()
+			}()
+			scripts := []Script{
+				{Client: "a", Path: pa, Steps: []Step{{Op: "incr", Key: key, Delta: 5}, {Op: "expire", Key: key, D: 150 * time.Millisecond, Ms: true},
+					{Op: op, Key: key, Delta: 2, At: 90 * time.Millisecond}}},
+				{Client: "b", Path: pb, Steps: []Step{{Op: "get", Key: key, Num: true, At: 420 * time.Millisecond}, {Op: "incr", Key: key, Delta: 7},
+					{Op: "get", Key: key, Num: true}}},
+			}
+			for _, sc := range scripts {
+				sum.Paths[sc.Path.Name()]++
+				sum.Evaluations += len(sc.Steps)
+			}
+			rec.Run("c09", scripts, nil)
+			g.Release()
+			record(w, rec, &seq, sum, seen, trace.Ev{"cfg": cfg, "dmap": "c09", "straddle": true}, func(h *History) bool { return true })
+		}
+		ctl.Reset()
 		for _, p := range paths {
 			p.Close()
 		}
